@@ -409,7 +409,11 @@ func (its *document) IsGarbage() bool {
 }
 
 func (its *document) GetParentDocument() Document {
-	return its.toDocument(its.snapshot().getParent())
+	parent := its.snapshot().getParent()
+	if parent == nil { // the root Document has no parent
+		return nil
+	}
+	return its.toDocument(parent)
 }
 func (its *document) GetRootDocument() Document {
 	if its.snapshot().getRoot() == its.snapshot() {
